@@ -57,21 +57,26 @@ TSetBogus == /\ Ev.cmd = "set_params" /\ Ev.outcome = "refused" /\ Ev.args[1] \n
              /\ SetBogus(Ev.args[1]) /\ Obs
 TClone == Ev.cmd = "clone" /\ Ev.outcome = "ok" /\ Clone /\ Obs /\ Abs(Ev.clone) = params /\ Ev.distinct_object
 TQuery == Ev.cmd \in {"transform", "mahalanobis", "score"} /\ Ev.outcome = "ok" /\ Query(Ev.cmd) /\ Obs
+\* the exported filter carries exactly the estimator's configuration and noises (by name) and the model's layouts
+TExport == /\ Ev.cmd = "export_python" /\ Ev.outcome = "ok" /\ Query("export_python") /\ Obs
+           /\ Ev.exported.config = params.config /\ Ev.exported.noises_match /\ Ev.exported.layout_ok
 \* (a fitted noise map is "some map": its identity token is not constrained, everything else is)
 NoIds(p) == [p EXCEPT !.process_noise.id = "-", !.sensor_noises.id = "-"]
-TFitOk == /\ Ev.cmd = "fit" /\ Ev.outcome = "ok" /\ Can /\ fits < MaxFits
+TFitOk == /\ Ev.cmd \in FitCmds /\ Ev.outcome = "ok" /\ Can /\ fits < MaxFits
           /\ NoIds(Abs(Ev.post)) = NoIds(FitPost(params))
+          \* fit_transform returns what transform returns on the fitted estimator
+          /\ (Ev.cmd = "fit_transform" => Ev.equals_transform_after_fit)
           /\ params' = Abs(Ev.post) /\ fits' = fits + 1
-          /\ log' = Append(log, [cmd |-> "fit", args |-> <<>>, outcome |-> "ok", post |-> params'])
+          /\ log' = Append(log, [cmd |-> Ev.cmd, args |-> <<>>, outcome |-> "ok", post |-> params'])
           /\ l <= Len(Traces[tid]) /\ l' = l + 1
           /\ UNCHANGED <<tid, uni, orig, done>>
 \* after a failed fit nothing is claimed about the parameters: the observed state is taken as is
-TFitFail == /\ Ev.cmd = "fit" /\ Ev.outcome = "MinimizationFailure" /\ l <= Len(Traces[tid]) /\ fits < MaxFits
+TFitFail == /\ Ev.cmd \in FitCmds /\ Ev.outcome = "MinimizationFailure" /\ l <= Len(Traces[tid]) /\ fits < MaxFits
             /\ l' = l + 1 /\ params' = Abs(Ev.post) /\ fits' = fits + 1
             /\ UNCHANGED <<tid, uni, orig, log, done>>
 
 TNext == l <= Len(Traces[tid]) /\
-         (TGetSet \/ TSetTok \/ TSetPN \/ TSetSN \/ TSetField \/ TSetTwo \/ TSetNoiseField \/ TSetCfgField \/ TSetConfig \/ TSetBogus \/ TClone \/ TQuery \/ TFitOk \/ TFitFail)
+         (TGetSet \/ TSetTok \/ TSetPN \/ TSetSN \/ TSetField \/ TSetTwo \/ TSetNoiseField \/ TSetCfgField \/ TSetConfig \/ TSetBogus \/ TClone \/ TQuery \/ TExport \/ TFitOk \/ TFitFail)
 
 Reach == TLCSet(tid, IF TLCGet(tid) < l THEN l ELSE TLCGet(tid))
 Post == \A t \in 1..Len(Traces) :
